@@ -47,9 +47,11 @@ def get_class(name):
 class FitRecord:
     """What the monitors saw during one fit."""
 
-    def __init__(self, obj, axis):
+    def __init__(self, obj, axis, tables=False):
         self.obj = obj
         self.axis = axis
+        self.tables = tables  # read the distance table at every step boundary (C06 only:
+        # a harness-side read inside fit must not be able to mask a read with side effects)
         self.steps = []  # snapshots at step boundaries: (n_selected, idx copy, table copy)
         self.scores = []  # (n_selected at call, scores copy)
         self.active = []  # voronoi: (n_active, n_total, full_fraction)
@@ -68,7 +70,7 @@ class FitRecord:
         except Exception:  # noqa: BLE001
             return
         table = None
-        gd = getattr(o, "get_distance", None)
+        gd = getattr(o, "get_distance", None) if self.tables else None
         if gd is not None:
             try:
                 table = np.array(gd(), dtype=float, copy=True)
@@ -419,7 +421,7 @@ class SelectorWorld:
                 return
         if self.pid == "C08" and not op.get("expect"):
             self.c08_prepare(name, m, op)
-        rec = FitRecord(obj, info["axis"])
+        rec = FitRecord(obj, info["axis"], tables=self.pid == "C06")
         self._cur = rec
         self.env.progress.on_step = rec.on_step
         n_before = int(getattr(obj, "n_selected_", 0) or 0) if warm else 0
